@@ -2020,7 +2020,9 @@ class DFA(fa.FA):
             transitions[state] = current_transitions
 
         if not must_be_suffix:
-            end_state = len(transitions)
+            # Trie nodes of patterns with symbols outside the alphabet get a
+            # label but no row, so count the labels to get a fresh state
+            end_state = len(labels)
             transitions[end_state] = {symbol: end_state for symbol in input_symbols}
             for state in final_states:
                 transitions[state] = {symbol: end_state for symbol in input_symbols}
